@@ -26,7 +26,12 @@ pub fn instantiate(
     set_contract_version(deps.storage, CONTRACT_NAME, CONTRACT_VERSION)?;
     validate_instantiation_params(info.clone(), msg.clone())?;
     let mut res = Response::new();
-    fair_burn(info.sender.to_string(), INSTANTIATION_FEE, None, &mut res);
+    fair_burn(
+        env.contract.address.to_string(),
+        INSTANTIATION_FEE,
+        None,
+        &mut res,
+    );
     let cfg = state_config(deps.as_ref(), info.clone(), msg.clone())?;
     CONFIG.save(deps.storage, &cfg)?;
     Ok(res
